@@ -14,7 +14,7 @@
 From Coq Require Import ZArith QArith List Bool Lia.
 From Pandora Require Import Lib.Blocks Model.Filters Spec.Filters Proofs.FiltersP Gen.Constants.
 From Pandora Require Lib.BlockSkeleton Proofs.SkelFiltersP Gen.BlockLoops.
-From Pandora Require Import Lib.NpArr Model.FiltersNp Proofs.NpArrP Proofs.FiltersGenP Gen.FilterKernels.
+From Pandora Require Import Lib.NpNd Model.FiltersNp Proofs.NpNdP Proofs.FiltersGenP Gen.FilterKernels.
 Import ListNotations.
 Open Scope Z_scope.
 
@@ -277,7 +277,7 @@ Qed.
    fail closed) from bilateral.py (normalized_gaussian, gauss_spatial_kernel, bilateral_kernel,
    filter_bilateral, filter_disparity), median.py (median_filter, filter_disparity) and
    median_for_intervals.py (filter_disparity): every statement a `let` over the numpy combinators of
-   Lib/NpArr.v (broadcasting, transposition, indexing, nansum, boolean-mask assignment), the double
+   Lib/NpNd.v (broadcasting, transposition, indexing, nansum, boolean-mask assignment), the double
    block loop a hole filled with BlockSkeleton.exec of the generated skeleton (Gen/BlockLoops.v).
    The theorems below are about THOSE definitions: they stop compiling when the code changes what is
    computed.  [is2 X ny nx f]: X is a well-formed ny x nx array (no numpy error) whose element
